@@ -49,6 +49,8 @@ CONSTANTS
     GodMode,      \* "object" | "address"    : Godambe.cache keyed on the function object or on its address
     DemesMode,    \* "pure" | "storeback"    : Demes.output stores mapped names into the event log
     PerturbMode,  \* "pure" | "rewrites_none": Misc.perturb_params replaces None entries of the caller's bound lists
+    HashMode,     \* "ordered" | "set_order" : LowPass.compute_cov_dist builds its dict in pop_ids order or in set (string-hash) order
+    SFSMode,      \* "copies" | "callers_list": Demes.SFS renames ancient samples in a copy of / in the caller's sampled_demes list
     MaxTable      \* state constraint: at most this many stored keys per table
 
 Tables == {"proj", "dbeta", "part", "precalc", "multinom", "bb", "godambe"}
@@ -87,10 +89,12 @@ GodB     == GodTransB \cup GodNamedB
 DemesFullB  == {"demes_output_X", "demes_output_Y", "demes_output_none"}
 DemesAgainB == {"demes_output_again_X", "demes_output_again_Y", "demes_output_again_none"}
 DemesB   == DemesFullB \cup DemesAgainB
+LowPassFuncB == {"lowpass_func_2d", "lowpass_cov_dist_2pop"}       \* per-population coverage dict -> corrected 2-D model spectrum
+DemesSFSB == {"demes_sfs_ancient", "demes_sfs_present", "from_demes_ancient"}   \* demes graph -> spectrum (ancient: sample_times with a non-zero entry)
 
 AllBases == ProjectB \cup Stat1B \cup StatNB \cup DataDictB \cup FromPhi1B \cup FromPhiNB \cup Inb1B \cup InbNB \cup NumB
             \cup LowPassB \cup IntB \cup PhiXB \cup Phim1B \cup PhimNB \cup LikeB \cup ObjB \cup PerturbB \cup PerturbVB
-            \cup GodB \cup DemesB
+            \cup GodB \cup DemesB \cup LowPassFuncB \cup DemesSFSB
 
 \* the dadi function a base call enters (violation keys are "<site>/<clause>")
 Site(b) ==
@@ -141,6 +145,10 @@ Site(b) ==
       [] b \in {"fim_A", "fim_B", "fim_A_named", "fim_B_named"} -> "Godambe.FIM_uncert"
       [] b \in {"gim_A", "gim_B"} -> "Godambe.GIM_uncert"
       [] b \in DemesB -> "Demes.output"
+      [] b = "lowpass_func_2d" -> "LowPass.make_low_pass_func_GATK_multisample"
+      [] b = "lowpass_cov_dist_2pop" -> "LowPass.compute_cov_dist"
+      [] b \in {"demes_sfs_ancient", "demes_sfs_present"} -> "Demes.SFS"
+      [] b = "from_demes_ancient" -> "Spectrum.from_demes"
       [] OTHER -> "?"
 
 IsIntegrator(b) == b \in IntB
@@ -175,7 +183,6 @@ MultK(xs, n)        == {c \in (0..n) \X (0..n) \X (0..n) : c[1] + c[2] + c[3] = 
 \* BetaBinomln(i, 2, alpha, beta) for i = 0..2 and every (alpha, beta) of a tag set
 BBK(tags)           == {<<i, 2, tg>> : i \in 0..2, tg \in tags}
 GridTags(g, F, n)   == {<<"G", g, F, j>> : j \in 1..n}           \* (alpha, beta) at grid point j of grid g, inbreeding F
-LPTags(nseq, F, ss) == {<<"LP", nseq, F, s>> : s \in ss}          \* nseq as a string: tags are homogeneous 4-tuples          \* (alpha, beta) of allele frequency s/nseq
 \* the SNP table of the data-dictionary fixture: (called, derived) per population
 DDA == {<<6, 5>>, <<6, 2>>, <<6, 3>>, <<6, 4>>, <<6, 0>>, <<5, 3>>, <<5, 2>>}
 DDB == {<<4, 3>>, <<4, 2>>, <<4, 0>>, <<4, 1>>}
@@ -202,12 +209,19 @@ Needs(b) ==
       [] b = "multinomln_121" -> [Z EXCEPT !.multinom = {<<1, 2, 1>>}]
       [] b = "betabinomln" -> [Z EXCEPT !.bb = {<<1, 2, <<"raw", "3/4", "5/4", 0>>>>}]
       [] b = "betabinomconv_4_3" -> [Z EXCEPT !.precalc = PartK({4}, 3), !.bb = BBK({<<"raw", "3/4", "5/4", 0>>})]
-      [] b = "lowpass_projmat_6_4_F" -> [Z EXCEPT !.part = PartK(0..6, 3), !.bb = BBK(LPTags("6", "1/4", 1..5))]
+      \* (part_inbreeding_probability uses closed-form inbred Hardy-Weinberg probabilities: no BetaBinomln lookups)
+      [] b = "lowpass_projmat_6_4_F" -> [Z EXCEPT !.part = PartK(0..6, 3)]
       [] b = "lowpass_partprob_af_6_4" -> [Z EXCEPT !.part = PartK({4}, 3), !.multinom = MultK({4}, 3)]
-      [] b = "lowpass_partprob_af_6_3_F" -> [Z EXCEPT !.part = PartK({3}, 3), !.bb = BBK(LPTags("6", "1/4", {3}))]
+      [] b = "lowpass_partprob_af_6_3_F" -> [Z EXCEPT !.part = PartK({3}, 3)]
       [] b = "lowpass_partprob_geno_6" -> [Z EXCEPT !.part = PartK(0..6, 3), !.multinom = MultK(0..6, 3)]
       [] b = "lowpass_calling_error_4" -> [Z EXCEPT !.part = PartK(0..4, 2), !.multinom = MultK(0..4, 2)]
       [] b = "lowpass_prob_enough_6_4" -> Z
+      \* low-pass correction of a 2-D model, nseq = (6,6), nsub = (4,4), analytic path: no-call probabilities (genotype
+      \* partitions of 6), projection matrices 6 -> 4, calling-error matrices (genotype partitions of 4); model sampled with ns = nseq
+      [] b = "lowpass_func_2d" -> [Z EXCEPT !.proj = ProjK(4, 6, 0..6), !.dbeta = {<<6, "A8">>},
+                                            !.part = PartK(0..6, 3) \cup PartK(0..4, 2), !.multinom = MultK(0..6, 3) \cup MultK(0..4, 2)]
+      [] b \in {"demes_sfs_ancient", "demes_sfs_present"} -> [Z EXCEPT !.dbeta = {<<4, "A8">>, <<2, "A8">>}]
+      [] b = "from_demes_ancient" -> [Z EXCEPT !.dbeta = {<<n, g>> : n \in {4, 2}, g \in {"A8", "A10", "A12"}}]
       [] OTHER -> Z
 
 \* Two footprints depend on the state:
@@ -241,6 +255,9 @@ LogEffect(b) ==
       [] b \in PhiXB -> <<"reset", 1>>
       [] b \in ObjB \cup GodB -> <<"reset", 2>>          \* the model function: phi_1D ; one_pop
       [] b \in DemesB -> <<"model", 4>>                  \* phi_1D ; one_pop ; phi_1D_to_2D ; two_pops
+      [] b = "lowpass_func_2d" -> <<"reset", 3>>         \* the model: phi_1D ; phi_1D_to_2D ; two_pops
+      [] b \in {"demes_sfs_ancient", "from_demes_ancient"} -> <<"reset", 8>>    \* (the events Demes._compute_sfs logs for the fixture graph)
+      [] b = "demes_sfs_present" -> <<"reset", 5>>
       [] OTHER -> <<"none">>
 MapOf(b) == CASE b \in {"demes_output_X", "demes_output_again_X"} -> "X"
               [] b \in {"demes_output_Y", "demes_output_again_Y"} -> "Y"
@@ -250,17 +267,18 @@ MapOf(b) == CASE b \in {"demes_output_X", "demes_output_again_X"} -> "X"
 NeedsF == [b \in AllBases |-> Needs(b)]
 SiteF  == [b \in AllBases |-> Site(b)]
 AttrF  == [b \in AllBases |-> [evals |-> Evals(b), log |-> LogEffect(b), integ |-> IsIntegrator(b),
-                                args |-> (IF PhiLays(b) # LayC \/ b \in IntB \cup PerturbB THEN {1} ELSE {}) \cup (IF XLays(b) # LayC THEN {2} ELSE {}),
+                                args |-> (IF PhiLays(b) # LayC \/ b \in IntB \cup PerturbB \cup LowPassFuncB \cup DemesSFSB THEN {1} ELSE {}) \cup (IF XLays(b) # LayC THEN {2} ELSE {}),
                                 god |-> b \in GodB]]
 
-MemoBases == {b \in AllBases : Needs(b) # Z \/ b \in GodB \/ Evals(b) > 0 \/ b \in DemesB} \cup {"part_4_3", "four_pops_c", "one_pop_td", "phi_1D", "perturb_params_none_bounds"}
+MemoBases == {b \in AllBases : Needs(b) # Z \/ b \in GodB \/ Evals(b) > 0 \/ b \in DemesB} \cup {"part_4_3", "four_pops_c", "one_pop_td", "phi_1D", "perturb_params_none_bounds", "lowpass_cov_dist_2pop"}
 \* one representative of every kind of table interaction (for the deeper exhaustive run)
 CoreBases == {"project_1d_8_4", "project_1d_6_4", "project_2d_64_43", "from_data_dict_1d_4", "lowpass_projmat_6_4", "cached_projection_4_6_3",
               "from_phi_2d_43_A", "from_phi_2d_43_B", "from_phi_3d_432_A", "from_phi_4d_2222", "from_phi_2d_22_A6",
               "from_phi_inb_1d_4", "from_phi_inb_2d_42", "cached_part_4_3", "cached_part_precalc_4_3", "betabinomconv_4_3",
               "lowpass_projmat_6_4_F", "lowpass_partprob_af_6_4", "lowpass_calling_error_4",
               "fim_A", "fim_B", "fim_A_named", "gim_B", "object_func_B_store", "optimize_grid_A",
-              "demes_output_X", "demes_output_again_Y", "demes_output_again_none", "four_pops_c", "phi_1D"}
+              "demes_output_X", "demes_output_again_Y", "demes_output_again_none", "four_pops_c", "phi_1D",
+              "lowpass_func_2d", "demes_sfs_ancient"}
 Bases == CASE BaseSel = "memo" -> MemoBases
            [] BaseSel = "core" -> CoreBases
            [] BaseSel = "god" -> {"fim_A", "fim_B", "gim_B", "fim_A_named"}
@@ -326,15 +344,19 @@ Call(c) ==
     IN
     /\ Len(hist) < MaxDepth
     /\ \E adr \in (IF b \in GodTransB /\ GodMode = "address" THEN Addr ELSE {"named"}) :
+      \* the interpreter's string-hash order of the two population labels (matters only if some result follows set order)
+      \E hs \in (IF b = "lowpass_func_2d" /\ HashMode = "set_order" THEN {"labels_in_order", "labels_swapped"} ELSE {"labels_in_order"}) :
         /\ tabs' = [t \in Tables |-> IF t \in touched THEN TableAfter(t, need[t], adr, b) ELSE tabs[t]]
         /\ LET used == UNION {{<<t, fk, UsedProv(t, fk, need[t], adr)>> : fk \in need[t]} : t \in touched}
                pairs == UNION {{<<tabs[t][Key(t, fk, adr)].by, b, t>> : fk \in {f \in need[t] : Present(t, f, adr)}} : t \in touched}
                         \cup (IF b \in DemesAgainB /\ dlog.owner = "m1" THEN {<<dlog.by, b, "demeslog">>} ELSE {})
                inplace == \/ (AttrF[b].integ /\ ~Normalises(b)) \/ (b \in PerturbB /\ PerturbMode = "rewrites_none")
                           \/ b \in DocumentedInPlace
+                          \/ (b \in {"demes_sfs_ancient", "from_demes_ancient"} /\ SFSMode = "callers_list")
                args == AttrF[b].args
                value == IF b \in DemesB THEN DemesValue(b)
                         ELSE IF AttrF[b].integ /\ ~KernelSeesC(c) THEN <<"garbage", b, c.lay, c.xl>>
+                        ELSE IF hs = "labels_swapped" THEN <<"coverage_of_the_other_population", b>>
                         ELSE <<"F", b>>
            IN /\ heap' = [id \in args \cup {3} |->
                             IF id = 1 THEN [role |-> "array", layout |-> c.lay, version |-> IF inplace THEN 1 ELSE 0]
@@ -379,7 +401,9 @@ ResultSpec(b) == ResultSpecF[b]
 \* (every memoised value the call used is the value of the full key it was looked up for)
 ResultIndependentOfHistory ==
     res.b # "" => ((\A u \in res.used : u[3] = u[2]) /\ (res.b \in DemesB => res.value = ResultSpec(res.b).value))
-LayoutIndependent          == (res.b # "" /\ res.b \notin DemesB) => res.value = ResultSpec(res.b).value
+ResultIndependentOfHashSeed == res.b # "" => res.value[1] # "coverage_of_the_other_population"
+LayoutIndependent          == (res.b # "" /\ res.b \notin DemesB /\ res.value[1] # "coverage_of_the_other_population")
+                                 => res.value = ResultSpec(res.b).value
 ArgumentsUnchanged         == res.b # "" => \A id \in res.args : heap[id].version = 0 \/ (id = 1 /\ res.b \in DocumentedInPlace)
 ResultIsFresh              == (res.b # "" /\ AttrF[res.b].integ) => res.result \notin res.args
 \* the inductive reason: every stored value is the value of its own stored key's full key
